@@ -922,3 +922,6 @@ ASSUMPTIONS = [
 ]
 TRUSTED = ["rustc nightly callee resolution (Instance::try_resolve)", "nsx exporter", "nsverif dominators and Tarjan SCC"]
 NONTRIVIAL = "one obligation per call edge inside a recursive cycle of the unguarded call graph plus the probe-shape and self-guarding obligations; distinct = distinct edge"
+EXPLANATION += (
+    ' Round 6: R1 also requires a recursion over data depth to be called again on an element of its argument (obtained by iterating it), never on the argument itself.'
+)
